@@ -2,8 +2,11 @@
 //
 // Part 1 (this file): Message.Answer on requests obtained through the message
 // API, decoded from the wire, or read from a stream of an in-memory SCTP
-// association. Parts 2 and 3 (sm_test.go): the CEA / DWA a state machine puts
-// on the wire, and the transport stream answers are written to.
+// association. Parts 2 to 4 (sm_test.go): the CEA / DWA a state machine puts
+// on the wire, and the transport stream answers are written to (requests one
+// after the other or interleaved in chunks over several streams; the client
+// side). Part 5 (timed_test.go): answers that are due later than a Server's
+// ReadTimeout / after a pause longer than its WriteTimeout.
 package c16
 
 import (
